@@ -1,14 +1,15 @@
 CONSTANTS
-  Pool = {1, 2, 4, 5}
+  Pool = {1, 2, 4}
   MaxComps = 3
   MaxFlows = 4
   OutKinds = {1, 2}
   FlowKinds = {1}
-  MaxOps = 0
-  Thin = 8
+  MaxOps = 2
+  Thin = 16
   ThinRes = 0
-  FullDepth = 0
-  SampleMod = 64
+  FullDepth = 1
+  SeedThin = 1
+  SampleMod = 16
   SampleRes = 0
 INIT Init
 NEXT Next
